@@ -6,6 +6,15 @@ import BandVerif.Model.Determinism
 import BandVerif.Model.DeterminismSrc
 import BandVerif.Generated.MapRanges
 import BandVerif.Generated.ModuleOrder
+import BandVerif.Props.C01
+import BandVerif.Props.C06
+import BandVerif.Props.C14
+import BandVerif.Props.C10
+import BandVerif.Props.C13
+import BandVerif.Lemmas.SigningTotal
+import BandVerif.Model.Tunnel
+import BandVerif.Generated.Params
+import BandVerif.Model.ParamsSrc
 
 namespace BandVerif.Props.C02
 open BandVerif BandVerif.Det
@@ -32,6 +41,15 @@ theorem generated_surface_matches_model :
     Generated.ModuleOrder.beginBlockers = beginOrder ∧
     Generated.ModuleOrder.endBlockers = endOrder := by
   refine ⟨rfl, rfl, rfl, rfl, rfl, rfl, rfl, rfl, rfl⟩
+
+/-- the set of parameter values a module accepts is what it was when the models were written: the normalised source of
+    every `Params.Validate` (and its helper validators) is unchanged -/
+theorem generated_params_validation_matches :
+    Generated.Params.validateSrc_oracle = ParamsSrc.oracle ∧ Generated.Params.validateSrc_feeds = ParamsSrc.feeds ∧
+    Generated.Params.validateSrc_bandtss = ParamsSrc.bandtss ∧ Generated.Params.validateSrc_tss = ParamsSrc.tss ∧
+    Generated.Params.validateSrc_tunnel = ParamsSrc.tunnel ∧ Generated.Params.validateSrc_restake = ParamsSrc.restake ∧
+    Generated.Params.validateSrc_globalfee = ParamsSrc.globalfee := by
+  refine ⟨?_, ?_, ?_, ?_, ?_, ?_, ?_⟩ <;> rfl
 
 /-- no goroutine is started and nothing `select`s in consensus packages: there is no schedule to quantify over -/
 theorem no_concurrency : Generated.MapRanges.concurrency = [] := rfl
@@ -98,43 +116,43 @@ theorem unsorted_vote_is_schedule_dependent :
 
 /-! ## from the handlers to the chain -/
 
-theorem runPhase_order_free {σ ε : Type} (fs : List (Sched → σ → Except ε σ))
-    (h : ∀ f ∈ fs, ∀ o₁ o₂ : Sched, o₁.Valid → o₂.Valid → ∀ s, f o₁ s = f o₂ s)
-    (o₁ o₂ : Sched) (h₁ : o₁.Valid) (h₂ : o₂.Valid) (s : σ) : runPhase o₁ fs s = runPhase o₂ fs s := by
+theorem runPhase_order_free {σ β ε : Type} (fs : List (Sched → β → σ → Except ε σ))
+    (h : ∀ f ∈ fs, ∀ o₁ o₂ : Sched, o₁.Valid → o₂.Valid → ∀ b s, f o₁ b s = f o₂ b s)
+    (o₁ o₂ : Sched) (h₁ : o₁.Valid) (h₂ : o₂.Valid) (b : β) (s : σ) : runPhase o₁ b fs s = runPhase o₂ b fs s := by
   unfold runPhase
   induction fs generalizing s with
   | nil => rfl
   | cons f fs ih =>
     simp only [List.foldlM_cons]
-    rw [h f (List.mem_cons_self ..) o₁ o₂ h₁ h₂ s]
-    cases f o₂ s with
+    rw [h f (List.mem_cons_self ..) o₁ o₂ h₁ h₂ b s]
+    cases f o₂ b s with
     | error e => rfl
     | ok s' => exact ih (fun g hg => h g (List.mem_cons_of_mem _ hg)) s'
 
-theorem runTxs_order_free {σ τ ρ ε : Type} (app : App σ τ ρ ε) (h : app.OrderFree)
-    (o₁ o₂ : Sched) (h₁ : o₁.Valid) (h₂ : o₂.Valid) (s : σ) (txs : List τ) : runTxs app o₁ s txs = runTxs app o₂ s txs := by
+theorem runTxs_order_free {σ β τ ρ ε : Type} (app : App σ β τ ρ ε) (h : app.OrderFree)
+    (o₁ o₂ : Sched) (h₁ : o₁.Valid) (h₂ : o₂.Valid) (b : β) (s : σ) (txs : List τ) : runTxs app o₁ b s txs = runTxs app o₂ b s txs := by
   unfold runTxs
-  have : (fun (acc : σ × List (TxResult ρ)) tx => let (s', r) := app.runTx o₁ acc.1 tx; (s', acc.2 ++ [r])) =
-         (fun (acc : σ × List (TxResult ρ)) tx => let (s', r) := app.runTx o₂ acc.1 tx; (s', acc.2 ++ [r])) := by
+  have : (fun (acc : σ × List (TxResult ρ)) tx => let (s', r) := app.runTx o₁ b acc.1 tx; (s', acc.2 ++ [r])) =
+         (fun (acc : σ × List (TxResult ρ)) tx => let (s', r) := app.runTx o₂ b acc.1 tx; (s', acc.2 ++ [r])) := by
     funext acc tx; rw [h.2.2 o₁ o₂ h₁ h₂]
   rw [this]
 
-theorem finalize_order_free {σ τ ρ ε : Type} (app : App σ τ ρ ε) (h : app.OrderFree)
-    (o₁ o₂ : Sched) (h₁ : o₁.Valid) (h₂ : o₂.Valid) (s : σ) (txs : List τ) : finalize app o₁ s txs = finalize app o₂ s txs := by
+theorem finalize_order_free {σ β τ ρ ε : Type} (app : App σ β τ ρ ε) (h : app.OrderFree)
+    (o₁ o₂ : Sched) (h₁ : o₁.Valid) (h₂ : o₂.Valid) (s : σ) (blk : β × List τ) : finalize app o₁ s blk = finalize app o₂ s blk := by
   unfold finalize
-  rw [runPhase_order_free app.begins h.1 o₁ o₂ h₁ h₂ s]
-  cases runPhase o₂ app.begins s with
+  rw [runPhase_order_free app.begins h.1 o₁ o₂ h₁ h₂ blk.1 s]
+  cases runPhase o₂ blk.1 app.begins s with
   | error e => rfl
   | ok s1 =>
     simp only [bind, Except.bind]
-    rw [runTxs_order_free app h o₁ o₂ h₁ h₂ s1 txs]
+    rw [runTxs_order_free app h o₁ o₂ h₁ h₂ blk.1 s1 blk.2]
     rw [runPhase_order_free app.ends h.2.1 o₁ o₂ h₁ h₂]
 
 /-- **determinism**: two nodes executing the same blocks from the same genesis — each under its own, arbitrary valid
     schedule per block — obtain identical committed states (hence app hashes) and identical per-transaction
     code, gas and data at every height, or fail identically. -/
-theorem replicas_agree {σ τ ρ ε : Type} (app : App σ τ ρ ε) (h : app.OrderFree)
-    (os₁ os₂ : Nat → Sched) (h₁ : ∀ n, (os₁ n).Valid) (h₂ : ∀ n, (os₂ n).Valid) (height : Nat) (genesis : σ) (blocks : List (List τ)) :
+theorem replicas_agree {σ β τ ρ ε : Type} (app : App σ β τ ρ ε) (h : app.OrderFree)
+    (os₁ os₂ : Nat → Sched) (h₁ : ∀ n, (os₁ n).Valid) (h₂ : ∀ n, (os₂ n).Valid) (height : Nat) (genesis : σ) (blocks : List (β × List τ)) :
     runChain app os₁ height genesis blocks = runChain app os₂ height genesis blocks := by
   induction blocks generalizing height genesis with
   | nil => rfl
@@ -147,45 +165,46 @@ theorem replicas_agree {σ τ ρ ε : Type} (app : App σ τ ρ ε) (h : app.Ord
 
 /-! ## totality -/
 
-theorem runPhase_total {σ ε : Type} (Inv : σ → Prop) (o : Sched) (fs : List (Sched → σ → Except ε σ))
-    (h : ∀ f ∈ fs, ∀ o s, Inv s → ∃ s', f o s = .ok s' ∧ Inv s') (s : σ) (hs : Inv s) :
-    ∃ s', runPhase o fs s = .ok s' ∧ Inv s' := by
+theorem runPhase_total {σ β ε : Type} (EnvOk : β → Prop) (Inv : σ → Prop) (o : Sched) (b : β) (hb : EnvOk b) (fs : List (Sched → β → σ → Except ε σ))
+    (h : ∀ f ∈ fs, ∀ o b s, EnvOk b → Inv s → ∃ s', f o b s = .ok s' ∧ Inv s') (s : σ) (hs : Inv s) :
+    ∃ s', runPhase o b fs s = .ok s' ∧ Inv s' := by
   unfold runPhase
   induction fs generalizing s with
   | nil => exact ⟨s, rfl, hs⟩
   | cons f fs ih =>
-    obtain ⟨s1, e1, i1⟩ := h f (List.mem_cons_self ..) o s hs
+    obtain ⟨s1, e1, i1⟩ := h f (List.mem_cons_self ..) o b s hb hs
     simp only [List.foldlM_cons, e1]
     exact ih (fun g hg => h g (List.mem_cons_of_mem _ hg)) s1 i1
 
-theorem runTxs_inv {σ τ ρ ε : Type} (app : App σ τ ρ ε) (Inv : σ → Prop) (h : ∀ o s tx, Inv s → Inv (app.runTx o s tx).1)
-    (o : Sched) (s : σ) (hs : Inv s) (txs : List τ) : Inv (runTxs app o s txs).1 := by
+theorem runTxs_inv {σ β τ ρ ε : Type} (app : App σ β τ ρ ε) (EnvOk : β → Prop) (Inv : σ → Prop)
+    (h : ∀ o b s tx, EnvOk b → Inv s → Inv (app.runTx o b s tx).1)
+    (o : Sched) (b : β) (hb : EnvOk b) (s : σ) (hs : Inv s) (txs : List τ) : Inv (runTxs app o b s txs).1 := by
   unfold runTxs
   suffices ∀ (acc : σ × List (TxResult ρ)), Inv acc.1 →
-      Inv (txs.foldl (fun (acc : σ × List (TxResult ρ)) tx => let (s', r) := app.runTx o acc.1 tx; (s', acc.2 ++ [r])) acc).1 from this (s, []) hs
+      Inv (txs.foldl (fun (acc : σ × List (TxResult ρ)) tx => let (s', r) := app.runTx o b acc.1 tx; (s', acc.2 ++ [r])) acc).1 from this (s, []) hs
   induction txs with
   | nil => intro acc ha; exact ha
-  | cons tx txs ih => intro acc ha; simp only [List.foldl_cons]; exact ih _ (h o acc.1 tx ha)
+  | cons tx txs ih => intro acc ha; simp only [List.foldl_cons]; exact ih _ (h o b acc.1 tx hb ha)
 
 /-- one block: with total begin/end-blockers, ANY list of transactions finalizes, and the invariant is re-established -/
-theorem finalize_total {σ τ ρ ε : Type} (app : App σ τ ρ ε) (Inv : σ → Prop) (h : app.TotalOn Inv)
-    (o : Sched) (s : σ) (hs : Inv s) (txs : List τ) : ∃ r, finalize app o s txs = .ok r ∧ Inv r.1 := by
+theorem finalize_total {σ β τ ρ ε : Type} (app : App σ β τ ρ ε) (EnvOk : β → Prop) (Inv : σ → Prop) (h : app.TotalOn EnvOk Inv)
+    (o : Sched) (s : σ) (hs : Inv s) (blk : β × List τ) (hb : EnvOk blk.1) : ∃ r, finalize app o s blk = .ok r ∧ Inv r.1 := by
   unfold finalize
-  obtain ⟨s1, e1, i1⟩ := runPhase_total Inv o app.begins h.1 s hs
-  have i2 := runTxs_inv app Inv h.2.2 o s1 i1 txs
-  obtain ⟨s3, e3, i3⟩ := runPhase_total Inv o app.ends h.2.1 _ i2
-  refine ⟨(s3, (runTxs app o s1 txs).2), ?_, i3⟩
+  obtain ⟨s1, e1, i1⟩ := runPhase_total EnvOk Inv o blk.1 hb app.begins h.1 s hs
+  have i2 := runTxs_inv app EnvOk Inv h.2.2 o blk.1 hb s1 i1 blk.2
+  obtain ⟨s3, e3, i3⟩ := runPhase_total EnvOk Inv o blk.1 hb app.ends h.2.1 _ i2
+  refine ⟨(s3, (runTxs app o blk.1 s1 blk.2).2), ?_, i3⟩
   simp only [e1, bind, Except.bind, e3, pure, Except.pure]
 
 /-- **totality**: every block sequence finalizes at every height, under every schedule -/
-theorem chain_total {σ τ ρ ε : Type} (app : App σ τ ρ ε) (Inv : σ → Prop) (h : app.TotalOn Inv)
-    (os : Nat → Sched) (height : Nat) (genesis : σ) (hg : Inv genesis) (blocks : List (List τ)) :
+theorem chain_total {σ β τ ρ ε : Type} (app : App σ β τ ρ ε) (EnvOk : β → Prop) (Inv : σ → Prop) (h : app.TotalOn EnvOk Inv)
+    (os : Nat → Sched) (height : Nat) (genesis : σ) (hg : Inv genesis) (blocks : List (β × List τ)) (hb : ∀ b ∈ blocks, EnvOk b.1) :
     ∃ out, runChain app os height genesis blocks = .ok out ∧ out.length = blocks.length := by
   induction blocks generalizing height genesis with
   | nil => exact ⟨[], rfl, rfl⟩
   | cons b bs ih =>
-    obtain ⟨r, er, ir⟩ := finalize_total app Inv h (os height) genesis hg b
-    obtain ⟨rest, erest, lrest⟩ := ih (height + 1) r.1 ir
+    obtain ⟨r, er, ir⟩ := finalize_total app EnvOk Inv h (os height) genesis hg b (hb b (List.mem_cons_self ..))
+    obtain ⟨rest, erest, lrest⟩ := ih (height + 1) r.1 ir (fun x hx => hb x (List.mem_cons_of_mem _ hx))
     refine ⟨(r.1, r.2) :: rest, ?_, by simp [lrest]⟩
     simp only [runChain, er, erest]
 
@@ -211,30 +230,331 @@ theorem module_order_constraints :
     before endOrder "feedstypes" "tunneltypes" = true ∧ before endOrder "bandtsstypes" "tunneltypes" = true ∧
     beginOrder.Nodup ∧ endOrder.Nodup := by decide
 
+/-! ## the modelled band modules composed into one application
+
+    `chain_total` needs per-module totality as a hypothesis.  For the modules whose end-blockers are modelled in
+    this project the hypothesis is discharged here from their own theorems: the oracle end-blocker
+    (`C01.step_inv`: `MustGetRequest` never panics on a reachable state), the feeds end-blocker
+    (`C06.calculatePrice_total`: `CalculatePrice` never returns an error) and the tunnel end-blocker
+    (a total function: failures of `ProduceActiveTunnelPacket` are events, never returned).
+    The end-block order is the regenerated one: oracle, feeds, tunnel. -/
+
+/-- what a block brings: header values and the outcomes of components the models take as inputs -/
+structure Env where
+  height : Int
+  nowNs : Int
+  expBlocks : Int
+  minted : Int                                         -- coins the mint module adds to the fee collector
+  activePowers : List Int                              -- last-commit voting powers of the oracle-active voters
+  eligibleMembers : Int                                -- bandtss members that are active with a non-empty DE queue
+  outcome : Nat → Nat × String                         -- owasm execution result per resolved request
+  feedInfos : List (List Median.Info × Int)            -- per current feed: validator price infos, power quorum
+  feedPrices : List Tunnel.Price                       -- the prices feeds publishes this block (tunnel input)
+  routeOk : Nat → Bool                                 -- whether the route of tunnel id accepts a packet
+  committee : Nat → List Nat                           -- the signing committee the sampler draws for tss signing id (C09)
+
+/-- the quantities that are unsigned in the Go code are non-negative; committees are as the sampler draws them (C09):
+    distinct members, `thr` (the group threshold) of them -/
+def Env.Ok (thr : Nat) (b : Env) : Prop :=
+  (∀ lq ∈ b.feedInfos, ∀ i ∈ lq.1, 0 ≤ i.power) ∧ 0 ≤ b.minted ∧ (∀ p ∈ b.activePowers, 0 ≤ p) ∧ 0 ≤ b.eligibleMembers ∧
+  (∀ i, (b.committee i).Nodup) ∧ (∀ i, (b.committee i).length ≤ thr)
+
+structure BState where
+  oracle : Oracle.State
+  tunnel : Tunnel.State
+  tss : Signing.State      -- tss signing life cycle + bandtss fees/escrow (C05/C10/C13 model)
+  feePool : Int            -- fee collector balance (one denom)
+  oraclePct : Nat          -- oracle Params.OracleRewardPercentage
+  tssPct : Nat             -- bandtss Params.RewardPercentage
+  tax : Int                -- distribution community tax, raw 18-decimal
+
+inductive BTx
+  | oracle (op : C01.Op)                                -- request admission, report, activate
+  | trigger (id sender : Nat) (prices : List Tunnel.Price) (routeOk : Bool)
+  | payFee (amt : Nat)                                  -- a transaction fee reaching the fee collector
+  | setOraclePct (p : Nat)                              -- MsgUpdateParams (applied iff Params.Validate accepts)
+  | setTssPct (p : Nat)
+  | tss (op : C05.Op)                                   -- DE submission/reset, signing request, signature submission, activation, params
+
+inductive BErr | oraclePanic | feedsError | insufficientFunds | negativeCoin | tssPanic deriving DecidableEq, Repr
+
+def mintBegin (_ : Sched) (b : Env) (s : BState) : Except BErr BState := .ok { s with feePool := s.feePool + b.minted }
+
+/-- oracle BeginBlocker → AllocateTokens: SendCoinsFromModuleToModule fails when the fee collector holds less than the
+    share (an error: FinalizeBlock fails), DecCoins.Sub panics on a negative amount -/
+def oracleBegin (_ : Sched) (b : Env) (s : BState) : Except BErr BState :=
+  match Reward.oracleAlloc s.feePool s.oraclePct s.tax b.activePowers with
+  | none => .ok s
+  | some out =>
+    if out.transferred < 0 ∨ s.feePool < out.transferred then .error .insufficientFunds
+    else if out.remaining < 0 ∨ out.communityFund < 0 then .error .negativeCoin
+    else .ok { s with feePool := s.feePool - out.transferred }
+
+/-- bandtss BeginBlocker → AllocateTokens -/
+def tssBegin (_ : Sched) (b : Env) (s : BState) : Except BErr BState :=
+  match Reward.tssAlloc s.feePool s.tssPct s.tax b.eligibleMembers with
+  | none => .ok s
+  | some out =>
+    if out.transferred < 0 ∨ s.feePool < out.transferred then .error .insufficientFunds
+    else if out.perMember < 0 ∨ out.communityFund < 0 then .error .negativeCoin
+    else .ok { s with feePool := s.feePool - out.transferred }
+
+/-- distribution takes what is left -/
+def distrBegin (_ : Sched) (_ : Env) (s : BState) : Except BErr BState := .ok { s with feePool := 0 }
+
+def oracleEnd (_ : Sched) (b : Env) (s : BState) : Except BErr BState :=
+  match Oracle.endBlock s.oracle b.outcome b.expBlocks b.height b.nowNs with
+  | some o => .ok { s with oracle := o }
+  | none => .error .oraclePanic
+
+/-- tss EndBlocker → HandleSigningEndBlock (with the bandtss callbacks); fails where the Go code panics -/
+def tssEnd (_ : Sched) (b : Env) (s : BState) : Except BErr BState :=
+  if Signing.endBlockPanics s.tss b.committee b.height b.nowNs then .error .tssPanic
+  else .ok { s with tss := Signing.endBlock s.tss b.committee b.height b.nowNs }
+
+/-- a tss/bandtss message; the committee of a new signing is the sampler's (an input of the block environment) -/
+def tssOp (b : Env) (st : Signing.State) : C05.Op → C05.Op
+  | .request a au l _ h => .request a au l (b.committee (st.count + 1)) h
+  | .endBlock _ _ _ => .resetDE 0      -- not a transaction; never reached (filtered in bandTx)
+  | op => op
+
+def feedsEnd (_ : Sched) (b : Env) (s : BState) : Except BErr BState :=
+  if b.feedInfos.all (fun lq => Median.calculatePrice lq.1 lq.2 != Median.Res.error) then .ok s else .error .feedsError
+
+def tunnelEnd (_ : Sched) (b : Env) (s : BState) : Except BErr BState :=
+  .ok { s with tunnel := Tunnel.endBlock b.feedPrices (b.nowNs / 1000000000) b.routeOk s.tunnel.activeIdx s.tunnel }
+
+def bandTx (_ : Sched) (b : Env) (s : BState) : BTx → BState × TxResult Unit
+  | .oracle (.endBlock ..) => (s, { code := 1, gas := 0, data := () })       -- not a transaction
+  | .oracle op =>
+    match C01.step s.oracle op with
+    | some o => ({ s with oracle := o }, { code := 0, gas := 0, data := () })
+    | none => (s, { code := 1, gas := 0, data := () })
+  | .trigger id sender prices ok =>
+    let r := Tunnel.trigger s.tunnel id sender prices ok (b.nowNs / 1000000000)
+    ({ s with tunnel := r.1 }, { code := if r.2 = .ok then 0 else 1, gas := 0, data := () })
+  | .payFee amt => ({ s with feePool := s.feePool + amt }, { code := 0, gas := 0, data := () })
+  | .setOraclePct p =>
+    if Generated.Params.oracleRewardPctAccepted p then ({ s with oraclePct := p }, { code := 0, gas := 0, data := () })
+    else (s, { code := 1, gas := 0, data := () })
+  | .setTssPct p =>
+    if Generated.Params.bandtssRewardPctAccepted p then ({ s with tssPct := p }, { code := 0, gas := 0, data := () })
+    else (s, { code := 1, gas := 0, data := () })
+  | .tss (.endBlock ..) => (s, { code := 1, gas := 0, data := () })          -- not a transaction
+  | .tss op => ({ s with tss := C05.apply s.tss (tssOp b s.tss op) }, { code := 0, gas := 0, data := () })
+
+/-- begin: mint → oracle → bandtss → distribution; end: oracle → feeds → tunnel — as in the regenerated orders -/
+def bandApp : App BState Env BTx Unit BErr where
+  begins := [mintBegin, oracleBegin, tssBegin, distrBegin]
+  ends := [oracleEnd, tssEnd, feedsEnd, tunnelEnd]
+  runTx := bandTx
+
+theorem bandApp_order_matches_source :
+    before Generated.ModuleOrder.beginBlockers "minttypes" "oracletypes" = true ∧
+    before Generated.ModuleOrder.beginBlockers "oracletypes" "bandtsstypes" = true ∧
+    before Generated.ModuleOrder.beginBlockers "bandtsstypes" "distrtypes" = true ∧
+    before Generated.ModuleOrder.endBlockers "oracletypes" "tsstypes" = true ∧
+    before Generated.ModuleOrder.endBlockers "tsstypes" "feedstypes" = true ∧
+    before Generated.ModuleOrder.endBlockers "feedstypes" "tunneltypes" = true := by decide
+
+theorem bandApp_order_free : bandApp.OrderFree :=
+  ⟨(fun f hf o₁ o₂ _ _ b s => by
+      simp only [bandApp, List.mem_cons, List.mem_nil_iff, or_false] at hf
+      rcases hf with rfl | rfl | rfl | rfl <;> rfl),
+   (fun f hf o₁ o₂ _ _ b s => by
+      simp only [bandApp, List.mem_cons, List.mem_nil_iff, or_false] at hf
+      rcases hf with rfl | rfl | rfl | rfl <;> rfl), (fun _ _ _ _ _ _ _ => rfl)⟩
+
+/-- the state invariant of the composed model: the C01 oracle invariant, a non-negative fee pool, and reward
+    percentages within what `Params.Validate` (as regenerated) accepts -/
+structure BInv (thr : Nat) (s : BState) : Prop where
+  oracle : Oracle.Inv s.oracle
+  tssH : Signing.HInv s.tss
+  tssE : Signing.EInv s.tss
+  tssT : s.tss.threshold = thr
+  pool : 0 ≤ s.feePool
+  opct : s.oraclePct ≤ 100
+  tpct : s.tssPct ≤ 100
+  tax0 : 0 ≤ s.tax
+  tax1 : s.tax ≤ Reward.E18
+
+/-- **the modelled modules are total**: from any state satisfying `BInv`, under any block environment with unsigned
+    quantities, every begin- and end-blocker succeeds and re-establishes the invariant, and every transaction keeps
+    it — in particular a parameter change that `Params.Validate` accepts cannot make a later block fail. -/
+theorem bandApp_total (thr : Nat) : bandApp.TotalOn (Env.Ok thr) (BInv thr) := by
+  refine ⟨?_, ?_, ?_⟩
+  · intro f hf o b s hb hs
+    simp only [bandApp, List.mem_cons, List.mem_nil_iff, or_false] at hf
+    rcases hf with rfl | rfl | rfl | rfl
+    · exact ⟨_, rfl, { hs with pool := Int.add_nonneg hs.pool hb.2.1 }⟩
+    · -- oracle AllocateTokens
+      unfold oracleBegin
+      cases h : Reward.oracleAlloc s.feePool s.oraclePct s.tax b.activePowers with
+      | none => exact ⟨s, rfl, hs⟩
+      | some out =>
+        obtain ⟨_, h0, hle, hc0, _, _, hr0, _⟩ := C14.oracle_conserves s.feePool s.oraclePct s.tax b.activePowers out hs.pool
+          (Int.natCast_nonneg _) (by exact_mod_cast hs.opct) hs.tax0 hs.tax1 hb.2.2.1 h
+        have n1 : ¬ (out.transferred < 0 ∨ s.feePool < out.transferred) := by omega
+        have n2 : ¬ (out.remaining < 0 ∨ out.communityFund < 0) := by omega
+        simp only [n1, n2, if_false]
+        exact ⟨_, rfl, { hs with pool := by show 0 ≤ s.feePool - out.transferred; omega }⟩
+    · -- bandtss AllocateTokens
+      unfold tssBegin
+      cases h : Reward.tssAlloc s.feePool s.tssPct s.tax b.eligibleMembers with
+      | none => exact ⟨s, rfl, hs⟩
+      | some out =>
+        have hn : 0 < b.eligibleMembers := by
+          rcases Int.lt_or_eq_of_le hb.2.2.2.1 with h' | h'
+          · exact h'
+          · rw [← h'] at h; rw [C14.tss_nothing_without_eligible] at h; cases h
+        obtain ⟨_, h0, hle, hp0, hc0, _⟩ := C14.tss_conserves s.feePool s.tssPct s.tax b.eligibleMembers out hs.pool
+          (Int.natCast_nonneg _) (by exact_mod_cast hs.tpct) hs.tax0 hs.tax1 hn h
+        have n1 : ¬ (out.transferred < 0 ∨ s.feePool < out.transferred) := by omega
+        have n2 : ¬ (out.perMember < 0 ∨ out.communityFund < 0) := by omega
+        simp only [n1, n2, if_false]
+        exact ⟨_, rfl, { hs with pool := by show 0 ≤ s.feePool - out.transferred; omega }⟩
+    · exact ⟨_, rfl, { hs with pool := Int.le_refl 0 }⟩
+  · intro f hf o b s hb hs
+    simp only [bandApp, List.mem_cons, List.mem_nil_iff, or_false] at hf
+    rcases hf with rfl | rfl | rfl | rfl
+    · obtain ⟨o', e, i⟩ := C01.step_inv s.oracle (.endBlock b.outcome b.expBlocks b.height b.nowNs) hs.oracle
+      simp only [C01.step] at e
+      exact ⟨{ s with oracle := o' }, by simp only [oracleEnd, e], { hs with oracle := i }⟩
+    · -- tss / bandtss end-block: no Must* panic, no payout beyond the escrow
+      have hnp := Signing.endBlock_never_panics s.tss b.committee b.height b.nowNs hs.tssH hs.tssE
+      refine ⟨{ s with tss := Signing.endBlock s.tss b.committee b.height b.nowNs }, by simp only [tssEnd, hnp]; rfl, ?_⟩
+      obtain ⟨e1, e2⟩ := C13.step_einv s.tss (.endBlock b.committee b.height b.nowNs) hs.tssE
+        (by intro i; rw [hs.tssT]; exact hb.2.2.2.2.2 i)
+      exact { hs with tssH := Signing.endBlock_hinv s.tss b.committee b.height b.nowNs hb.2.2.2.2.1 hs.tssH, tssE := e1, tssT := e2.trans hs.tssT }
+    · refine ⟨s, ?_, hs⟩
+      have : b.feedInfos.all (fun lq => Median.calculatePrice lq.1 lq.2 != Median.Res.error) = true := by
+        rw [List.all_eq_true]
+        intro lq hlq
+        simp only [bne_iff_ne, ne_eq]
+        exact C06.calculatePrice_total lq.1 lq.2 (hb.1 lq hlq)
+      simp only [feedsEnd, this, if_true]
+    · exact ⟨_, rfl, { hs with }⟩
+  · intro o b s tx hb hs
+    cases tx with
+    | oracle op =>
+      cases op with
+      | endBlock a b' c d => exact hs
+      | request r =>
+        obtain ⟨o', e, i⟩ := C01.step_inv s.oracle (.request r) hs.oracle
+        simp only [bandApp, bandTx, e]; exact { hs with oracle := i }
+      | report v rid eids ov =>
+        obtain ⟨o', e, i⟩ := C01.step_inv s.oracle (.report v rid eids ov) hs.oracle
+        simp only [bandApp, bandTx, e]; exact { hs with oracle := i }
+      | activate v p n =>
+        obtain ⟨o', e, i⟩ := C01.step_inv s.oracle (.activate v p n) hs.oracle
+        simp only [bandApp, bandTx, e]; exact { hs with oracle := i }
+    | trigger id sender prices ok => exact { hs with }
+    | payFee amt => exact { hs with pool := Int.add_nonneg hs.pool (Int.natCast_nonneg _) }
+    | setOraclePct p =>
+      simp only [bandApp, bandTx]
+      by_cases h : Generated.Params.oracleRewardPctAccepted p = true
+      · simp only [h, if_true]
+        exact { hs with opct := by simpa [Generated.Params.oracleRewardPctAccepted] using h }
+      · simp only [h]; exact hs
+    | setTssPct p =>
+      simp only [bandApp, bandTx]
+      by_cases h : Generated.Params.bandtssRewardPctAccepted p = true
+      · simp only [h, if_true]
+        exact { hs with tpct := by simpa [Generated.Params.bandtssRewardPctAccepted] using h }
+      · simp only [h]; exact hs
+    | tss op =>
+      -- every tss/bandtss message keeps the signing invariants (committees are the sampler's)
+      have key : ∀ op', C10.OpOk op' → C13.CommitteeOk s.tss.threshold op' →
+          BInv thr { s with tss := C05.apply s.tss op' } := by
+        intro op' k1 k2
+        obtain ⟨e1, e2⟩ := C13.step_einv s.tss op' hs.tssE k2
+        exact { hs with tssH := C10.step_hinv s.tss op' hs.tssH k1, tssE := e1, tssT := e2.trans hs.tssT }
+      cases op with
+      | endBlock c ht n => exact hs
+      | request a au l c ht =>
+        exact key _ (hb.2.2.2.2.1 _) (by show (b.committee (s.tss.count + 1)).length ≤ s.tss.threshold; rw [hs.tssT]; exact hb.2.2.2.2.2 _)
+      | submitDE m k => exact key _ trivial trivial
+      | resetDE m => exact key _ trivial trivial
+      | submit a b' c d => exact key _ trivial trivial
+      | activate m n => exact key _ trivial trivial
+      | setParams p a d f => exact key _ trivial trivial
+
+/-- **composed totality for the modelled modules**: every sequence of blocks — any transactions (including every
+    parameter change that validation accepts), any minting, voting powers, script outcomes, route failures, heights
+    and times — finalizes at every height on every node under every schedule. -/
+theorem band_chain_total (thr : Nat) (os : Nat → Sched) (height : Nat) (blocks : List (Env × List BTx)) (hb : ∀ b ∈ blocks, b.1.Ok thr)
+    (genesis : BState) (hg : BInv thr genesis) :
+    ∃ out, runChain bandApp os height genesis blocks = .ok out ∧ out.length = blocks.length :=
+  chain_total bandApp (Env.Ok thr) (BInv thr) (bandApp_total thr) os height genesis hg blocks hb
+
+theorem band_replicas_agree (os₁ os₂ : Nat → Sched) (h₁ : ∀ n, (os₁ n).Valid) (h₂ : ∀ n, (os₂ n).Valid) (height : Nat)
+    (genesis : BState) (blocks : List (Env × List BTx)) :
+    runChain bandApp os₁ height genesis blocks = runChain bandApp os₂ height genesis blocks :=
+  replicas_agree bandApp bandApp_order_free os₁ os₂ h₁ h₂ height genesis blocks
+
+/-- without the bound the composed model is NOT total: a percentage above 100 makes the next oracle begin-block
+    fail with insufficient funds (what the code did before `fix:` cd24788) -/
+def badEnv : Env :=
+  { height := 2, nowNs := 0, expBlocks := 1, minted := 0, activePowers := [100], eligibleMembers := 0,
+    outcome := fun _ => (1, ""), feedInfos := [], feedPrices := [], routeOk := fun _ => true, committee := fun _ => [1] }
+def badState : BState :=
+  { oracle := Oracle.State.init, tunnel := ⟨fun _ => none, fun _ => 0, 0, 0, 0, []⟩, tss := C10.demo, feePool := 1000, oraclePct := 150, tssPct := 0, tax := 0 }
+def errOf {ε α : Type} : Except ε α → Option ε
+  | .error e => some e
+  | .ok _ => none
+theorem unbounded_pct_fails : errOf (oracleBegin Sched.id badEnv badState) = some .insufficientFunds := by decide
+
 /-! ## non-vacuity -/
+
+/-- `Env.Ok` is satisfiable by an environment with a current feed that has reporting validators -/
+example : ({ height := 5, nowNs := 1700000000000000000, expBlocks := 100, minted := 12, activePowers := [100, 1, 99], eligibleMembers := 3,
+             outcome := fun _ => (1, "00"),
+             feedInfos := [([{ status := 3, power := 100, price := 7, ts := 1700000000 }], 30)], feedPrices := [], routeOk := fun _ => true,
+             committee := fun _ => [1] } : Env).Ok 1 := by
+  refine ⟨?_, by decide, by decide, by decide, fun _ => by simp, fun _ => by simp⟩
+  intro lq hlq i hi
+  simp only [List.mem_singleton] at hlq
+  subst hlq
+  simp only [List.mem_singleton] at hi
+  subst hi
+  decide
+
+/-- a genesis state satisfying `BInv` with non-trivial parameters -/
+theorem einv_demo : Signing.EInv C10.demo := by
+  refine ⟨?_, ?_, ?_, ?_, ?_⟩
+  · intro d; simp [Signing.owedSum, Signing.owed, C10.demo, List.range_succ]
+  · intro i a atm q; simp [C10.demo] at q
+  · intro i; simp [C10.demo]
+  · intro i _; simp [C10.demo]
+  · intro i hi; simp [C10.demo] at hi
+
+example : BInv 1 { oracle := Oracle.State.init, tunnel := ⟨fun _ => none, fun _ => 0, 0, 0, 0, []⟩, tss := C10.demo, feePool := 5, oraclePct := 70,
+                   tssPct := 50, tax := 20000000000000000 } :=
+  ⟨Oracle.inv_init, C10.hinv_demo, einv_demo, rfl, by decide, by decide, by decide, by decide, by decide⟩
+
 
 /-- the hypotheses of `replicas_agree`/`chain_total` are met by an app whose only schedule-consuming handler is the
     vote: a one-module instance built from `voteApply`, with two different valid schedules -/
-def voteApp : App (List Signal) (Visit String Int) Unit VoteErr where
+def voteApp : App (List Signal) Unit (Visit String Int) Unit VoteErr where
   begins := []
-  ends := [fun _ s => .ok s]
-  runTx := fun o s diffMap =>
+  ends := [fun _ _ s => .ok s]
+  runTx := fun o _ s diffMap =>
     match voteApply o diffMap s with
     | .ok s' => (s', { code := 0, gas := diffMap.length, data := () })
     | .error _ => (s, { code := 1, gas := diffMap.length, data := () })
 
 theorem voteApp_order_free : voteApp.OrderFree := by
   refine ⟨(fun f hf => by cases hf), ?_, ?_⟩
-  · intro f hf o₁ o₂ _ _ s
+  · intro f hf o₁ o₂ _ _ b s
     simp only [voteApp, List.mem_singleton] at hf
     rw [hf]
-  · intro o₁ o₂ h₁ h₂ s tx
+  · intro o₁ o₂ h₁ h₂ b s tx
     simp only [voteApp]
     rw [vote_schedule_independent o₁ o₂ h₁ h₂]
 
-theorem voteApp_total : voteApp.TotalOn (fun _ => True) := by
-  refine ⟨(fun f hf => by cases hf), ?_, fun _ _ _ _ => trivial⟩
-  intro f hf o s _
+theorem voteApp_total : voteApp.TotalOn (fun _ => True) (fun _ => True) := by
+  refine ⟨(fun f hf => by cases hf), ?_, fun _ _ _ _ _ _ => trivial⟩
+  intro f hf o b s _ _
   simp only [voteApp, List.mem_singleton] at hf
   exact ⟨s, by rw [hf], trivial⟩
 
